@@ -2533,6 +2533,8 @@ class Scene:
         # Get initial angle of attack and control deflections
         controls = copy.copy(controls_original)
         alpha0 = copy.copy(alpha_original)
+        alpha1 = alpha0 # In case the aircraft is already trimmed
+        delta_flap1 = delta_flap0
 
         # Output initial residuals
         if verbose: print("{0:<20}{1:<20}{2:<25}{3:<25}".format(alpha0, delta_flap0, R[0], R[1]))
